@@ -68,6 +68,30 @@ def make(rule, sign, reduction=identity_reduction):
     raise ValueError(rule)
 
 
+def make_overridden(rule, sign):
+    """trainer built with decoy defaults (opposite signs, swapped magnitudes and time constants, another reduction) plus the
+    register_cell overrides that give the cell the hyper-parameters of ``make(rule, sign)``"""
+    sp, sn = SIGNS[sign]
+    lp, ln = sp * LRP, sn * LRN
+    dlp, dln = -sp * LRN, -sn * LRP
+    kp, kn = dict(learning_rate=lp, time_constant=TCP), dict(learning_rate=ln, time_constant=TCN)
+    dkp, dkn = dict(learning_rate=dlp, time_constant=TCN), dict(learning_rate=dln, time_constant=TCP)
+    red = dict(batch_reduction=identity_reduction)
+    if rule in ("da-stdp", "da-mstdp"):
+        cls = DelayAdjustedSTDP if rule == "da-stdp" else DelayAdjustedMSTDP
+        return cls(lr_pos=dlp, lr_neg=dln, tc_pos=TCN, tc_neg=TCP, batch_reduction=torch.amax), dict(lr_pos=lp, lr_neg=ln, tc_pos=TCP, tc_neg=TCN, **red)
+    if rule in ("da-stdpd", "da-mstdpd"):
+        cls = DelayAdjustedSTDPD if rule == "da-stdpd" else DelayAdjustedMSTDPD
+        return cls(lr_neg=dln, lr_pos=dlp, tc_neg=TCP, tc_pos=TCN, batch_reduction=torch.amax), dict(lr_neg=ln, lr_pos=lp, tc_neg=TCN, tc_pos=TCP, **red)
+    if rule == "da-kernel":
+        return (DelayAdjustedKernelSTDP(exp_stdp_post_kernel, exp_stdp_pre_kernel, dkp, dkn, batch_reduction=torch.amax),
+                dict(kernel_post_kwargs=kp, kernel_pre_kwargs=kn, **red))
+    if rule == "da-kerneld":
+        return (DelayAdjustedKernelSTDPD(exp_stdp_post_kernel, exp_stdp_pre_kernel, dkn, dkp, batch_reduction=torch.amax),
+                dict(kernel_post_kwargs=kn, kernel_pre_kwargs=kp, **red))
+    raise ValueError(rule)
+
+
 def reference(rule, sign, dt, pre_syn, post, Ks, signals, gamma, parts=False):
     """pre_syn (T,B,N,L), post (T,B,F,L) bool; Ks list of (F,N) delays in TIME per step; -> (T,B,F,N) signed update of step t"""
     sp, sn = SIGNS[sign]
@@ -110,6 +134,8 @@ def reference(rule, sign, dt, pre_syn, post, Ks, signals, gamma, parts=False):
 
 def shard(rule, conn, nio, T, dt, sign, sched):
     tally = Tally()
+    overridden = rule.endswith("+ov")  # hyper-parameters reach the cell as register_cell overrides of decoy defaults
+    rule = rule[:-3] if overridden else rule
     spec = Cellspec(conn, *nio)
     hs = all_histories(T, spec.in_bits + spec.out_bits)
     B = len(hs)
@@ -139,14 +165,18 @@ def shard(rule, conn, nio, T, dt, sign, sched):
                 d[tuple(p.tolist())] = alphabet[a]
             return d
 
-        case = {"rule": rule, "conn": conn, "io": list(nio), "T": T, "dt": dt, "sign": sign, "delay_schedule": sched, "assign": list(assign),
-                "batch=histories": B}
+        case = {"rule": rule + ("+ov" if overridden else ""), "conn": conn, "io": list(nio), "T": T, "dt": dt, "sign": sign, "delay_schedule": sched,
+                "assign": list(assign), "batch=histories": B, "per_cell_overrides": overridden}
         tally.add("evaluations")
         param = "delay" if rule in DELAY_RULES else "weight"
         try:
             layer = spec.build(dt, B, maxdelay, delays_at(0))
-            trainer = make(rule, sign)
-            trainer.register_cell("cell", layer.cell)
+            if overridden:
+                trainer, ov = make_overridden(rule, sign)
+                trainer.register_cell("cell", layer.cell, **ov)
+            else:
+                trainer = make(rule, sign)
+                trainer.register_cell("cell", layer.cell)
             # cross-implementation partners on identical twin layers
             partners = {}
             if rule == "da-stdp":
@@ -356,6 +386,10 @@ def run(rep):
             jobs.append((applied_shard, (rule, sign, 1.0)))
         for sign in (tuple(SIGNS) if rule in ("da-mstdp", "da-mstdpd") else ("hebbian", "dep")):
             jobs.append((multicell_shard, (rule, sign, 3 if quick else 4)))
+    # hyper-parameters given as per-cell overrides of a trainer constructed with decoy defaults
+    for rule in ("da-stdp", "da-stdpd", "da-mstdp", "da-mstdpd", "da-kernel", "da-kerneld"):
+        for sign in SIGNS:
+            jobs.append((shard, (rule + "+ov", "dense", (1, 1), T1 - 1, 1.0, sign, "const")))
     # kernel keyword arguments passed as tensors
     for rule in ("da-kernel-t", "da-kerneld-t"):
         for sign in ("hebbian", "anti"):
